@@ -1,42 +1,19 @@
-"""C03 — see harness/props/sdl_ko.py (check_c03) for the oracle on the real StatefulDataLoader under the virtual
-scheduler; the Lean theorems and the trace-validation leg are listed in THEOREMS / run()."""
+"""C03 - oracle: harness/props/sdl_ko.py (check_c03) on the real StatefulDataLoader under the virtual scheduler;
+theorems and correspondence legs come from the SP / MP model parts."""
 from __future__ import annotations
 
-from typing import Tuple
+from . import _compose, sdl_ko
 
-from ..core import Ctx
-from . import sdl_ko
-
-THEOREMS: list = []
-LEAN_MODULES: list = []
-RULE = ""
-EXPLANATION = ""
+RULE = 'configurations from harness.sdl.gen_cfg x schedule policy; StatefulDataLoader vs torch.utils.data.DataLoader on identical arguments over 2 epochs (both on virtual workers), shuffle configurations checked for exactly-once per epoch, in_order=False as multisets. Non-trivial: num_workers>=2 and at least 3 batches per epoch; distinct by (configuration, policy).'
+EXPLANATION = "Lean: TDV.SP.stream_eq_ref_* (single process) and TDV.MP.yields_prefix_ref / exactly_once (all schedules). Tie: SP K-D and MP K-T legs. Oracle: batch-for-batch equality with torch's DataLoader."
 ASSUMPTIONS = ["worker processes are virtual processes under harness/vsched.py (real _worker_loop, deep-copied arguments, pickled queue payloads)"]
-KNOWN: dict = {}
-NQ, NT = 150, 3000
 
-
-def extra_legs(ctx: Ctx):
+PARTS = [_compose.ko_part("ko", sdl_ko.gen_c03, sdl_ko.check_c03, 200, 4000, known=None)]
+from . import sp_kd
+PARTS.append(_compose.Part("sp_kd", lambda ctx: sp_kd.run_kd(ctx, 500, 5000), sp_kd.replay_kd, theorems=sp_kd.THEOREMS_C03, modules=sp_kd.LEAN_MODULES))
+try:
+    from . import mp_parts
+    PARTS += mp_parts.parts("C03")
+except ImportError:
     pass
-
-
-def run(ctx: Ctx):
-    import torch
-    torch.set_num_threads(1)
-    jobs = sdl_ko.gen_c03(ctx, ctx.n(NQ, NT))
-    for j in jobs[:2]:
-        ctx.sample(j)
-    ctx.pmap(sdl_ko.check_c03, jobs)
-    extra_legs(ctx)
-
-
-def escalate(ctx: Ctx):
-    run(ctx)
-
-
-def replay(ctx: Ctx, payload) -> Tuple[bool, str]:
-    sub = Ctx(ctx.prop, ctx.tier, ctx.seed)
-    sdl_ko.check_c03(sub, payload["input"])
-    if sub.failures:
-        return False, sub.failures[0].what
-    return True, "property holds on this input"
+_compose.assemble(globals(), PARTS, RULE, EXPLANATION, ASSUMPTIONS)
